@@ -7,7 +7,7 @@ RULE = ("(A) MC_Core(stream + mutator families): 0<=pos<=len after every step, r
         "advance by it, peeks and failing reads leave pos, documented pos movements of every mutator, new streams at 0 - for "
         "every content up to L bits, every pos, every call. (B) Gen_Core(stream): every setpos/bytepos/bytealign/read/peek/"
         "readlist/readto/find/rfind from every (content, pos); mutator families replayed on BitStream from every position. "
-        "(C) random sequences of 4-12 stream operations and mutations. integer-count reads only; token reads are covered by C02/C10.")
+        "(C) random sequences of 4-12 stream operations and mutations. token reads (read/peek of one token, readlist/peeklist of random token lists incl. exp-Golomb and length-less tokens) from random positions are included.")
 
 
 def run(chk):
@@ -21,5 +21,9 @@ def run(chk):
     common.run_families(chk, mut, ['BitStream'], all_pos=True)
     chk.exhaustive = True
     common.run_random(chk, drivers.c06_program, 8000 if thorough else 1500, 6, huge=0.01 if thorough else 0.0)
+    from harness import fmtprogs
+    import random
+    rng = random.Random(chk.seed * 13 + 66)
+    chk.queue([fmtprogs.stream_fmt_program(rng) for _ in range(6000 if thorough else 1500)], 'random-readlist')
     chk.flush()
     return chk.finish(rule=RULE, assumptions=common.ASSUME)
